@@ -3,6 +3,8 @@ use vcore::runner::{Ctx, Tier};
 
 mod c01;
 mod c02;
+mod c08;
+mod c15;
 
 pub fn level_of(p: &str) -> &'static str {
     match p {
@@ -15,6 +17,8 @@ fn dispatch(ctx: &Ctx, replay: Option<&serde_json::Value>) {
     match ctx.property.as_str() {
         "C01" => c01::run(ctx, replay),
         "C02" => c02::run(ctx, replay),
+        "C08" => c08::run(ctx, replay),
+        "C15" => c15::run(ctx, replay),
         p => {
             eprintln!("unknown property {p}");
             std::process::exit(2);
